@@ -1,3 +1,4 @@
 import Cgm.Lemmas.AuditCmd
 import Cgm.Props.C02
+import Cgm.Props.C02b
 #audit_namespace Cg.C02
